@@ -221,6 +221,83 @@ def run(loader, R, tier):
                     key, ", ".join(short(x) for x in Xs[:4])))
     R.floor("CoeffVisitor handlers", nh, 5)
 
+    stop_protocol(prog, R)
+
+
+def stop_protocol(prog, R):
+    """R39.5: `stop_ = true` in a StopVisitor aborts the whole traversal (not
+    just the current subtree), so it may only be set once the answer no
+    longer depends on the nodes that have not been visited: on the way to
+    every `stop_ = true` the handler has assigned the result member."""
+    R.rule("R39.5", "a stop visitor aborts the traversal only after "
+                    "assigning its answer")
+    STOP = "SymEngine::StopVisitor"
+    nst = 0
+    for cls in sorted(prog.classes):
+        if cls == STOP or not prog.derives(cls, STOP) \
+                or cls.startswith("SymEngine::BaseVisitor<"):
+            continue
+        u = prog.find_method(cls, "apply")
+        af = prog.functions.get(u) if u else None
+        if af is None or not af.get("body"):
+            continue
+        mem = None
+        for n in walk(af["body"]):
+            if n.get("k") == "return" and n.get("e"):
+                e = n["e"]
+                while e.get("k") in ("cast", "ctor") and len(
+                        e.get("a", ())) == 1:
+                    e = e["a"][0]
+                if e.get("k") == "mem" and (e.get("o") or {}).get("k") \
+                        == "this":
+                    mem = e["m"]
+        if not mem:
+            continue
+
+        def assigns(st, name):
+            e = st.get("e") if st.get("k") == "expr" else None
+            return bool(e and e.get("k") in ("bin", "op")
+                        and e.get("op") == "=" and e.get("a")
+                        and e["a"][0].get("k") == "mem"
+                        and e["a"][0].get("m") == name)
+
+        def scan(stmts, have, f):
+            nonlocal nst
+            for st in stmts:
+                if assigns(st, mem):
+                    have = True
+                elif assigns(st, "stop_"):
+                    rhs = st["e"]["a"][1]
+                    if rhs.get("k") == "lit" and str(rhs.get("v")).lower() \
+                            in ("true", "1"):
+                        nst += 1
+                        key = "%s::%s(%s)" % (short(cls), f["n"], short(
+                            f["params"][0]["t"]) if f.get("params") else "")
+                        R.instance("R39.5", key + "@%s" % st.get("l"))
+                        if not have:
+                            R.violation(
+                                "R39.5", key, prog.loc(f, st.get("l")),
+                                "%s sets stop_ = true on a path where it "
+                                "has not assigned `%s`: the flag aborts the "
+                                "whole pre-order traversal, so every node "
+                                "after this one is skipped and the answer "
+                                "is the one left by the nodes visited so "
+                                "far" % (key, mem))
+                elif st.get("k") == "{}":
+                    scan(st.get("s", ()), have, f)
+                elif st.get("k") in ("if", "for", "forr", "while", "do"):
+                    for part in ("t", "e", "b"):
+                        b = st.get(part)
+                        if b:
+                            scan(b.get("s", [b]) if b.get("k") == "{}"
+                                 else [b], have, f)
+        for fu in prog.by_class.get(cls, ()):
+            f = prog.functions[fu]
+            if f["n"] in ("bvisit", "visit") and f.get("body") \
+                    and not f.get("dependent"):
+                scan(f["body"].get("s", ()), False, f)
+    R.floor("stop_ = true sites in stop visitors", nst, 5)
+
 
 MANIFEST = dict(
     technique="table join between child-holding data members and the "
